@@ -6,6 +6,10 @@ ALL = ["C%02d" % i for i in range(1, 21)]
 
 CODEC_NOTE = "Trusted: the reflection bridge (identity-checked on every case), the schema universe and alphabets, the reference codecs, the Go toolchain. Schemas enter as the generator's intermediate JSON (the Java parser is absent). Small-scope bounds: depth <= 2 (3 on spines), <= 5 entries, strings <= 2 chars over the metacharacter set + tokens."
 CHECKS = {
+ "C05": dict(engine="enumx", category="model_checking", design="§3 C05, Appendix A",
+   technique="explicit-state enumeration of (registered tree, request) pairs served by the real router with stub resource code through an in-memory HTTP wire, against a routing decision table",
+   text="About 70 (quick) / 200 (thorough) registered trees (6 shapes x method sets none / each single / all / all-but-one) x the full product of verb, method header (absent, 13 names, unknown), 12 path shapes, q / ids / action presence, tunnelled or not, 6 filter stacks and 3 mountings (quick: filter stack and mounting one at a time) - 2.8e7 requests in quick - are parsed by net/http's server parser and routed by the real handler of both generations; status, the invoked stub, the filter/method order and the routing facts seen by filters must match the reference table; handlers obtained before later registrations must not change.",
+   note="Trusted: mc/wire, the decision table (written from the statement; don't-care cells as listed in the evidence assumptions), the stub decoders. Key/parameter/body decoding is stubbed here and checked by C02."),
  "C04": dict(engine="enumx", category="model_checking", design="§3 C04",
    technique="exhaustive enumeration of hostile inputs (all short strings over the ROR2 delimiter alphabet, all short JSON token sequences, all single edits of valid encodings, small untyped value trees) x every reading program, executed on the real readers and generated unmarshalers; oracle = returns, no panic, no hang",
    text="Every ROR2 string of <=6 (thorough 7) symbols over {( ) , : ' a % List( 1} through NewRor2Reader, as a query-parameter value and as a whole query string; every JSON token sequence of <=5 (6) tokens; every truncation and single-byte deletion/substitution/insertion of the reference encodings (json, header, query) of two values of every wrapper record; and ~10^4 untyped Go value trees are run through 19 hand-written reading programs plus generated unmarshalers in both generations. Any panic (identified by its site in the library) or hang is a violation.",
